@@ -13,6 +13,11 @@ Generic (file-based / compressor) framers: harness side of lean/EasyNet/EasyNet/
   property written from the property statement.
 * `install(module_globals, prop)`  called from a delimited block at the end of props/c0x.py: routes `kind == "generic"` cases
   here, and gives the existing cases whose serializer is generic (file toys, zlib, bz2) a model run.
+* session 3 (docs/GENERICFR.md section 9, docs/SER-STRENGTHENING.md): file toys with every `expected_load_error` configuration,
+  debug=True and a read-ahead loader; C02/C06 streams known by construction for EVERY serializer kind (`_gen_stream_any`),
+  optionally behind a converter; mode `direct` (protocol generators driven by hand: the remainder handed back with every
+  item is compared with the bytes after the frame; oracle only, no model run); delivered packets are retained and
+  re-rendered at the end of every run (`streamdrive.Retain`).
 """
 from __future__ import annotations
 
@@ -246,6 +251,12 @@ def _frame_bytes(spec: dict, f: dict) -> bytes:
     return b"".join(ser.incremental_serialize(sers.dec_val(f["v"])))
 
 
+def _conv_of(case: dict) -> tuple[bool, Any]:
+    """stream cases may put the harness converter behind the serializer (`conv`); DTO packets equal to `poison` are
+    refused by it (PacketConversionError -> exactly one parse error, the stream goes on)"""
+    return bool(case.get("conv")), (sers.dec_val(case["poison"]) if case.get("poison") is not None else None)
+
+
 def _stream_of(case: dict) -> tuple[list[bytes], bytes]:
     frames = [_frame_bytes(case["spec"], f) for f in case["frames"]]
     return frames, b"".join(frames)
@@ -274,20 +285,20 @@ def _deliver(fn, arg, lines: list[str], budget: list[int], keep: "sd.Retain | No
         arg = None
 
 
-def drive(spec: dict, path: str, stream: bytes, cuts: list[int], hint: int) -> tuple[list[str], list[bytes]]:
+def drive(spec: dict, path: str, stream: bytes, cuts: list[int], hint: int, conv: bool = False,
+          poison: Any = None) -> tuple[list[str], list[bytes]]:
     lines: list[str] = []
     chunks: list[bytes] = []
     keep = sd.Retain()
     try:
-        _drive(spec, path, stream, cuts, hint, lines, chunks, keep)
+        _drive(sd.make_protocol(spec, path, conv, poison), path, stream, cuts, hint, lines, chunks, keep)
     finally:
         keep.finish(lines)
     return lines, chunks
 
 
-def _drive(spec: dict, path: str, stream: bytes, cuts: list[int], hint: int, lines: list[str], chunks: list[bytes],
+def _drive(proto, path: str, stream: bytes, cuts: list[int], hint: int, lines: list[str], chunks: list[bytes],
            keep: "sd.Retain") -> tuple[list[str], list[bytes]]:
-    proto = sd.make_protocol(spec, path)
     budget = [len(stream) + 4]
     if path == "copy":
         consumer = StreamDataConsumer(proto)
@@ -321,17 +332,19 @@ def _drive(spec: dict, path: str, stream: bytes, cuts: list[int], hint: int, lin
     return lines, chunks
 
 
-def drive_direct(spec: dict, path: str, stream: bytes, cuts: list[int], hint: int) -> tuple[list[str], list[bytes]]:
+def drive_direct(spec: dict, path: str, stream: bytes, cuts: list[int], hint: int, conv: bool = False,
+                 poison: Any = None) -> tuple[list[str], list[bytes]]:
     """mode `direct`: the real protocol object's generators (`build_packet_from_chunks` / `build_packet_from_buffer`) driven
     by hand, the way the consumers drive them, so that the REMAINDER handed back with every packet and carried by every
     parse error can be looked at the moment it is produced (behind the real consumers it is only visible through what is
     delivered next, and on the buffered path the consumer re-uses the memory it points into).  After each item a line
     `rem <fed> <hex>`: <fed> = number of bytes this generator had been given, <hex> = the remainder."""
-    proto = sd.make_protocol(spec, path)
+    proto = sd.make_protocol(spec, path, conv, poison)
     lines: list[str] = []
     chunks: list[bytes] = []
     keep = sd.Retain()
     budget = [len(stream) + 4]
+    cleanup: list[Any] = []      # generators / views still open when the run stops early (closed in reverse order)
 
     def item(fn, fed: int) -> bytes | None:
         """run one generator step; None = it wants more data"""
@@ -377,6 +390,7 @@ def drive_direct(spec: dict, path: str, stream: bytes, cuts: list[int], hint: in
                     buf = b""
                     if gen is None:
                         gen, fed = proto.build_packet_from_chunks(), 0
+                        cleanup[:] = [gen.close]
                         next(gen)
                     fed += len(arg)
                     rem = item(lambda: gen.send(arg), fed)   # noqa: B023
@@ -392,6 +406,7 @@ def drive_direct(spec: dict, path: str, stream: bytes, cuts: list[int], hint: in
             def ensure() -> None:
                 if state["gen"] is None:
                     state["gen"] = proto.build_packet_from_buffer(buffer)
+                    cleanup[:] = [view.release, state["gen"].close]
                     state["start"] = next(state["gen"]) or 0
                     state["fed"] = 0
 
@@ -431,6 +446,11 @@ def drive_direct(spec: dict, path: str, stream: bytes, cuts: list[int], hint: in
         pass
     finally:
         keep.finish(lines)
+        for fn in reversed(cleanup):
+            try:
+                fn()
+            except Exception:  # noqa: BLE001
+                pass
     return lines, chunks
 
 
@@ -464,10 +484,12 @@ def run_real(case: dict) -> list[str]:
     if case["mode"] == "oneshot":
         return [_oneshot_line(spec, b"".join(_frame_bytes(spec, f) for f in dg)) for dg in case["datagrams"]]
     frames, stream = _stream_of(case)
+    conv, poison = _conv_of(case)
     if case["mode"] == "direct":
-        lines, chunks = drive_direct(spec, case["path"], stream, case["cuts"], case["hint"])
+        COUNT["direct_runs"] += 1
+        lines, chunks = drive_direct(spec, case["path"], stream, case["cuts"], case["hint"], conv, poison)
     else:
-        lines, chunks = drive(spec, case["path"], stream, case["cuts"], case["hint"])
+        lines, chunks = drive(spec, case["path"], stream, case["cuts"], case["hint"], conv, poison)
     _aux[core.case_digest(case)] = {"chunks": chunks, "frames": [len(f) for f in frames]}
     return lines
 
@@ -520,7 +542,7 @@ def model_post(case: dict, lines: list[str]) -> list[str]:
     if case["mode"] == "oneshot":
         return ["ok" if ln == "ok" else "err parse" if ln in ("missing", "invalid", "extra") else ln for ln in lines]
     lines = [ln for ln in lines if not ln.startswith("held ")]
-    return sd.codec_items(case["spec"], lines)
+    return sd.codec_items(case["spec"], lines, *_conv_of(case))
 
 
 # ---- oracles (written from the property statements; they never look at the model) ---------------
@@ -528,9 +550,11 @@ def model_post(case: dict, lines: list[str]) -> list[str]:
 def _expected_items(case: dict) -> list[str] | None:
     """frame-by-frame reference decoding, known by construction of the stream (None: the stream contains junk)"""
     out = []
+    conv, poison = _conv_of(case)
     for f in case["frames"]:
         if f["t"] == "pkt":
-            out.append(sd.pkt_line(sers.expected_received(case["spec"], sers.dec_val(f["v"]))))
+            e = sers.expected_received(case["spec"], sers.dec_val(f["v"]))
+            out.append("err conv" if conv and poison is not None and e == poison else sd.pkt_line(sd.Wrapped(e) if conv else e))
         elif f.get("as") == "bad":
             out.append("err parse")
         else:
@@ -882,8 +906,15 @@ def _gen_stream_any(rng, prop: str) -> dict | None:
     else:
         cuts = _cuts(rng, lens, min(maxread, rng.choice([3, 9, 40, 200])))
     mode = "direct" if rng.random() < 0.4 else "stream"
-    return {"kind": "generic", "prop": prop, "mode": mode, "path": path, "spec": spec, "frames": frames,
+    case = {"kind": "generic", "prop": prop, "mode": mode, "path": path, "spec": spec, "frames": frames,
             "hint": rng.choice([1, 2, 3, 7, 16, 64, 16384]), "cuts": cuts}
+    if rng.random() < 0.3:
+        # protocol with a converter; half of the time one of the stream's packets is one the converter refuses
+        case["conv"] = True
+        pk = [f["v"] for f in frames if f["t"] == "pkt"]
+        if rng.random() < 0.5:
+            case["poison"] = sers.enc_val(sers.expected_received(spec, sers.dec_val(rng.choice(pk))))
+    return case
 
 
 def _mutate(rng, spec: dict, frames: list[dict]) -> list[dict]:
@@ -998,7 +1029,7 @@ def generate(prop: str, rng, tier: str, boost: int):
         else:
             yield _gen_stream(rng, prop)
     # every serializer kind, streams known by construction (frame-by-frame decoding + remainders)
-    m = {"C02": 900, "C06": 700}.get(prop, 0) * (1 if tier == "quick" else 20) * boost
+    m = {"C02": 1200, "C06": 900}.get(prop, 0) * (1 if tier == "quick" else 20) * boost
     rng2 = core.sub_rng(rng.getrandbits(32), "anykind", prop)
     for _ in range(m):
         c = _gen_stream_any(rng2, prop)
@@ -1141,7 +1172,8 @@ def install(g: dict, prop: str) -> None:
         d = dict(o["extra_coverage"](stats)) if o["extra_coverage"] else {}
         d["generic_framers"] = {"model_runs": COUNT["model_runs"], "loader_tables": LAW["tables"], "table_entries": LAW["entries"],
                                 "loader_law_samples": LAW["samples"], "loader_law_violations": LAW["violations"],
-                                "skipped_too_many_starts": LAW["skipped_too_many_starts"]}
+                                "skipped_too_many_starts": LAW["skipped_too_many_starts"],
+                                "direct_mode_cases_oracle_only_no_model_run": COUNT["direct_runs"]}
         if "serializer_models" in d:
             d["serializer_models"] += ("; [generic framers] file-based (ToyFile, PeekFile) and zlib/bz2 wrappers are now compared "
                                        "with the Lean model GenericFr (loader/decompressor supplied as a table computed with the real library)")
@@ -1159,5 +1191,5 @@ def install(g: dict, prop: str) -> None:
     g["REQUIRED_THEOREMS"] = list(g.get("REQUIRED_THEOREMS", [])) + THEOREMS[prop]
 
 
-COUNT = {"model_runs": 0}
+COUNT = {"model_runs": 0, "direct_runs": 0}
 run_real_generic = run_real
